@@ -302,6 +302,10 @@ class EntryPoints(Suite):
                 hows = [h for h in HOWS if h not in INDENTED and not h.startswith("file")]
             for how in hows:
                 out.append({"g": "entry/" + how, "v": v, "how": how, "read": READS[(i + len(how)) % len(READS)]})
+        deep = J.chain("arr", 1100, {"i": 0})  # beyond orjson's decoder limit: load() falls back after the stream was consumed
+        for read in READS + ["file-noseek"]:
+            out.append({"g": "entry/plain-deep", "v": deep, "how": "plain", "read": read})
+            out.append({"g": "entry/plain", "v": vals[len(read) % len(vals)], "how": "plain", "read": "file-noseek"})
         for j, read in enumerate(READS):  # plain dumps, every way of reading
             for v in vals[j::5][:60]:
                 out.append({"g": "entry/plain", "v": v, "how": "plain", "read": read})
